@@ -1048,7 +1048,7 @@ def e2e_work(tier, idx):
             k = f"e2e/{inv['helper']}/{_eapi_group(eapi)}/{cls}"
             classes[k] = classes.get(k, 0) + 1
             if fails:
-                viol.append(dict(inv, fail=fails[0][0], msg=f"[real daemon] {e2e_script(inv).strip()!r} in src_install (EAPI {eapi}): {fails[0][1]}"))
+                viol.append(dict(inv, fail=fails[0][0], msg=f"[real daemon] {'; '.join(e2e_script(inv).splitlines()[:-2])!r} in src_install (EAPI {eapi}): {fails[0][1]}"))
     finally:
         if daemon is not None:
             daemon.close()
